@@ -374,8 +374,9 @@ func c15Session(c *runCtx, r *rng, gb string, n int) {
 			}
 		case x < 18:
 			// library: a bug with attachments, an identity change, bridge-like configuration
+			// (compares the host before/after by itself, as the host's configuration changes in the middle)
 			c15Library(c, r, dir, &log)
-			check("library actions")
+			snapA, snapB, snapO = hostSnapshot(w.a, false), hostSnapshot(w.b, false), hostSnapshot(w.origin, true)
 		case x < 19:
 			act(dir, "user")
 			act(dir, "label")
@@ -401,6 +402,9 @@ func c15Session(c *runCtx, r *rng, gb string, n int) {
 			}
 		}
 	}
+	// every session has the library actions at least once
+	c15Library(c, r, w.a, &log)
+	snapA, snapB, snapO = hostSnapshot(w.a, false), hostSnapshot(w.b, false), hostSnapshot(w.origin, true)
 	act(w.a, "push", "origin")
 	act(w.b, "pull", "origin")
 	// ---- every object is valid for stock git, everywhere
@@ -475,6 +479,7 @@ func c15Library(c *runCtx, r *rng, dir string, log *[]string) {
 		panic(err)
 	}
 	defer repo.Close()
+	snap0 := hostSnapshot(dir, false)
 	*log = append(*log, "library actions ["+filepath.Base(dir)+"]")
 	var author identity.Interface
 	for st := range identity.ReadAllLocal(repo) {
@@ -514,8 +519,23 @@ func c15Library(c *runCtx, r *rng, dir string, log *[]string) {
 	}
 	restore()
 	c.count("action=library bug with attachments")
-	// configuration through git-bug's own configuration interface
+	// configuration through git-bug's own configuration interface, on a handle that lives on while the
+	// host changes its own configuration with stock git (as under `webui`, `termui`, an interactive
+	// `bridge new`): git-bug has read the configuration before, and stores its keys afterwards
 	cfg := repo.LocalConfig()
+	cfg.ReadString("git-bug.identity")
+	cfg.ReadAll("git-bug")
+	cfg.ReadString("user.name")
+	if d := diffSnap(snap0, hostSnapshot(dir, false)); d != "" {
+		c.violation(c.nCases, "C15/host-disturbed", fmt.Sprintf("library actions (commits with attachments) changed something of the host that is not git-bug's: %s", d), nil)
+	}
+	hx := randHexId(r, 3)
+	gitIn(dir, "config", "alias.st"+hx, "status -sb")
+	gitIn(dir, "remote", "add", "upstream"+hx, "https://example.com/"+hx+".git")
+	gitIn(dir, "config", "core.autocrlf", pickOne(r, []string{"input", "false"}))
+	gitIn(dir, "config", "branch.main.description", "host text "+hx)
+	snap0 = hostSnapshot(dir, false)
+	*log = append(*log, "(host configuration changed while the handle is open)")
 	cfg.StoreString("git-bug.bridge.tracker.target", "github")
 	cfg.StoreString("git-bug.bridge.tracker.owner", "someone")
 	if r.chance(1, 2) {
@@ -528,6 +548,9 @@ func c15Library(c *runCtx, r *rng, dir string, log *[]string) {
 		if i.NeedCommit() {
 			i.Commit(repo)
 		}
+	}
+	if d := diffSnap(snap0, hostSnapshot(dir, false)); d != "" {
+		c.violation(c.nCases, "C15/host-disturbed", fmt.Sprintf("storing git-bug's own configuration keys and an identity change through a handle opened before the host changed its configuration with stock git disturbed the host: %s (session %v)", d, *log), nil)
 	}
 	_ = entity.Id("")
 }
